@@ -1,7 +1,10 @@
 // Package grammar enumerates JSON Schemas of the keyword fragment ogen implements.
 package grammar
 
-import "fmt"
+import (
+	"fmt"
+	"strings"
+)
 
 type M = map[string]any
 
@@ -273,6 +276,41 @@ func Schemas(thorough bool) (schemas []M, leaves []M, comps M) {
 						}
 						schemas = append(schemas, o)
 					}
+				}
+			}
+		}
+	}
+	// two reference cycles that share a component: X -> Y -> X and Y -> Y (or Y -> W -> Y), X alone
+	// carrying something to validate.  What is remembered about "does this type need validation"
+	// while one cycle is still open must not be kept for the other.  Every order matters: type names
+	// (X before / after Y), members of Y (back to X first / its own cycle first), the validated member
+	// of X before / after the member leading to Y.
+	for _, xFirst := range []bool{true, false} {
+		for _, backFirst := range []bool{true, false} {
+			for _, vFirst := range []bool{true, false} {
+				for _, viaThird := range []bool{false, true} {
+					tag := fmt.Sprintf("%v%v%v%v", xFirst, backFirst, vFirst, viaThird)
+					tag = strings.NewReplacer("true", "t", "false", "f").Replace(tag)
+					x, y, w := "CyA"+tag, "CyM"+tag, "CyW"+tag
+					if !xFirst {
+						x = "CyZ" + tag
+					}
+					back, own := "a_back", "b_own"
+					if !backFirst {
+						back, own = "b_back", "a_own"
+					}
+					v := "z_v"
+					if vFirst {
+						v = "a_v"
+					}
+					ownTarget := y
+					if viaThird {
+						ownTarget = w
+						comps[w] = M{"type": "object", "properties": M{"up": cref(y)}}
+					}
+					comps[x] = M{"type": "object", "properties": M{"m_down": cref(y), v: M{"type": "integer", "maximum": 5}}}
+					comps[y] = M{"type": "object", "properties": M{back: cref(x), own: cref(ownTarget)}}
+					schemas = append(schemas, cref(x))
 				}
 			}
 		}
